@@ -121,6 +121,14 @@ def form_programs():
     for v in ARG_VALUES:
         yield P(("arg", v), [A.Op("some_op", [v]), A.Op("two_args", [("i", 1), v]), A.Ctrl("end")])
     yield P(("args", "all"), [A.Op("many", ARG_VALUES), A.Ctrl("hold")])
+    # operations whose opcode can also head a switch, written as plain statements
+    for name in ("ProcessSpecial", "message_Menu", "message_SwitchMenu", "main_EnterAdventure"):
+        yield P(("special-op", name), [A.Op(name, [("i", 1), ("i", 2)]), A.Op("after_op"), A.Ctrl("end")])
+        yield P(("special-op-ctx", name), [A.Op(name, [("i", 3)], ctx=("actor", ("i", 1))), A.Op("after_op"), A.Ctrl("end")])
+        yield P(("special-op-with", name), [A.With("performer", ("i", 0), A.Op(name, [("c", "CONST_P")])), A.Ctrl("hold")])
+    # the same position mark (and the same string) twice in one argument list
+    yield P(("args", "same-twice"), [A.Op("path", [("i", 2), ("p", "a", 0, 0, 1, 2), ("p", "b", 2, 0, 3, 2), ("p", "a", 0, 0, 1, 2),
+                                                   ("s", "x"), ("s", "x")]), A.Ctrl("hold")])
     for kind in ("actor", "object", "performer"):
         for target in (("i", 2), ("c", "ACTOR_X")):
             yield P(("inlinectx", kind, target), [A.Op("ctx_op", [("i", 1)], ctx=(kind, target)), A.Op("after_op")])
